@@ -53,11 +53,11 @@ _IDENT = ['top1', 'tie', 'cmident', 'pdslice', 'cmreject']
 MIN_HITS = {
     'quick': dict({f'mon:{f}': 60 for f in FAMILY.values()}, **{f'mon:{f}': 40 for f in _IDENT},
                   **{'edge:tie': 100, 'edge:fully-masked': 60, 'edge:k<1': 40, 'edge:k>=C': 40, 'edge:logits-mask': 40, 'edge:logits-mask-finite-bias': 40, 'pdslice:overflowing-example': 5,
-                     'edge:extreme': 60, 'edge:per-position': 40, 'edge:masked-token': 100, 'hit:numpy-inputs': 800, 'hit:x64-metric': 150, 'hit:half-precision-scores': 40}),
+                     'edge:extreme': 60, 'edge:per-position': 40, 'edge:masked-token': 100, 'hit:numpy-inputs': 800, 'hit:x64-metric': 150, 'hit:half-precision-scores': 40, 'hit:narrow-target-dtype': 400}),
     'thorough': dict({f'mon:{f}': 600 for f in FAMILY.values()}, **{f'mon:{f}': 400 for f in _IDENT},
                      **{'edge:tie': 1000, 'edge:fully-masked': 600, 'edge:k<1': 400, 'edge:k>=C': 400,
                         'edge:logits-mask': 400, 'edge:logits-mask-finite-bias': 400, 'pdslice:overflowing-example': 50, 'edge:extreme': 600, 'edge:per-position': 400,
-                        'edge:masked-token': 1000, 'hit:numpy-inputs': 15000, 'hit:x64-metric': 3000, 'hit:half-precision-scores': 800}),
+                        'edge:masked-token': 1000, 'hit:numpy-inputs': 15000, 'hit:x64-metric': 3000, 'hit:half-precision-scores': 800, 'hit:narrow-target-dtype': 8000}),
 }
 
 
@@ -383,6 +383,68 @@ def count_edges(ctx, flags):
     ctx.count('edge:' + f)
 
 
+def run_narrow(ctx, jax, jnp, M, rng, case_no):
+  """Targets / domain ids stored in narrow integer dtypes (uint8, int8, int16 -- as label columns often are) with MORE classes /
+  domains than that dtype can count: every label value still fits, so the example is in the domain and the statistic must be
+  the same as for int32 labels."""
+  tdt = [np.uint8, np.int8, np.int16, np.uint16][case_no % 4]
+  top = {np.uint8: 255, np.int8: 127, np.int16: 32767, np.uint16: 65535}[tdt]
+  C = int([130, 200, 257, 300, 700][rng.randint(5)])
+  hi = min(C - 1, top)
+  L = int(rng.randint(1, 5))
+  wit0 = {'family': 'narrow-target-dtype', 'target_dtype': np.dtype(tdt).name, 'C': C}
+  # classification
+  y = int([0, hi, rng.randint(0, hi + 1)][rng.randint(3)])
+  pred = mg.make_scores(rng, 1, C, ['random', 'ties', 'ints'][rng.randint(3)])[0]
+  for name, metric, a in (
+      ('CrossEntropyLoss', M.CrossEntropyLoss(), {'class': 'CrossEntropyLoss'}),
+      ('Accuracy', M.Accuracy(), {'class': 'Accuracy'}),
+      ('TopKAccuracy', M.TopKAccuracy(k=3), {'class': 'TopKAccuracy', 'k': 3}),
+      ('ConfusionMatrix', M.ConfusionMatrix(num_classes=C), {'class': 'ConfusionMatrix', 'num_classes': C}),
+  ):
+    wit = {**wit0, 'metric': a, 'target': y, 'scores_head': pred[:8]}
+    r = ctx.call(f'{name}.evaluate_example', metric.evaluate_example, {'y': jnp.asarray(np.asarray(y, tdt))}, jnp.asarray(pred), witness=wit)
+    if r.ok:
+      ctx.count('hit:narrow-target-dtype')
+      compare(ctx, FAMILY[name], r.value, ref_stat(a, y, pred), ['narrow-target-dtype'], wit)
+  # sequences
+  ys = rng.randint(0, hi + 1, size=L)
+  ys[rng.randint(L)] = hi
+  preds = mg.make_scores(rng, L, C, 'random')
+  for name, metric, a in (
+      ('SequenceTokenCrossEntropyLoss', M.SequenceTokenCrossEntropyLoss(masked_target_values=(0,)),
+       {'class': 'SequenceTokenCrossEntropyLoss', 'masked_target_values': (0,), 'per_position': False}),
+      ('SequenceCrossEntropyLoss', M.SequenceCrossEntropyLoss(masked_target_values=(0,)),
+       {'class': 'SequenceCrossEntropyLoss', 'masked_target_values': (0,)}),
+      ('SequenceTokenAccuracy', M.SequenceTokenAccuracy(masked_target_values=(0,)),
+       {'class': 'SequenceTokenAccuracy', 'masked_target_values': (0,), 'per_position': False, 'logits_mask': None}),
+  ):
+    wit = {**wit0, 'metric': a, 'target': ys}
+    r = ctx.call(f'{name}.evaluate_example', metric.evaluate_example, {'y': jnp.asarray(ys.astype(tdt))}, jnp.asarray(preds), witness=wit)
+    if r.ok:
+      ctx.count('hit:narrow-target-dtype')
+      compare(ctx, FAMILY[name], r.value, ref_stat(a, ys, preds), ['narrow-target-dtype'], wit)
+  # per-domain wrapper: more domains than the id dtype can count
+  D = int([130, 257, 300][rng.randint(3)])
+  dom = int(min(D - 1, top, rng.randint(0, D)))
+  pd = M.PerDomainMetric(M.Accuracy(), num_domains=D, domain_id_key='domain_id')
+  y2 = int(rng.randint(0, 5))
+  p2 = mg.make_scores(rng, 1, 5, 'random')[0]
+  wit = {**wit0, 'metric': 'PerDomainMetric(Accuracy)', 'num_domains': D, 'domain_id': dom}
+  r = ctx.call('PerDomainMetric.evaluate_example', pd.evaluate_example,
+               {'y': jnp.asarray(np.int32(y2)), 'domain_id': jnp.asarray(np.asarray(dom, tdt))}, jnp.asarray(p2), witness=wit)
+  if r.ok:
+    _, f = fields(r.value)
+    want_w = np.zeros(D)
+    want_w[dom] = 1.0
+    want_a = want_w * float(r_argmax(np.asarray(p2, np.float64)) == y2)
+    ctx.count('hit:narrow-target-dtype')
+    ctx.check(f['weight'].shape == (D,) and bool(np.array_equal(f['weight'], want_w)) and bool(np.array_equal(f['accum'], want_a)),
+              'perdomain/narrow-domain-id-dtype', f'PerDomainMetric with {np.dtype(tdt).name} domain id {dom} of {D} domains: weight is '
+              f'non-zero at {np.flatnonzero(f["weight"]).tolist()}, expected [{dom}]', wit)
+  ctx.case_done(('narrow', np.dtype(tdt).name, C, y, D, dom), sample=wit0, klass=['narrow-target-dtype'])
+
+
 def run_half(ctx, jax, jnp, M, rng, case_no):
   """Half-precision scores (float16 / bfloat16): statistics must not be accumulated in the scores' dtype -- long sequences whose
   summed loss exceeds the float16 range (65504) and the bfloat16 integer range (256), judged against the float64 definition
@@ -611,6 +673,10 @@ def run(ctx):
       i = int(cid.split('/')[1])
       C, _ = shapes[i % len(shapes)]
       check_confusion(ctx, M, jnp, rng, C)
+
+    # ------------------------------------------- narrow integer label dtypes with more classes than they can count
+    for cid, rng in ctx.cases('narrow', 80 * scale):
+      run_narrow(ctx, jax, jnp, M, rng, int(cid.split('/')[1]))
 
     # ------------------------------------------- half-precision scores, long sequences / many merges
     for cid, rng in ctx.cases('half', 16 * scale):
